@@ -380,6 +380,19 @@ class Author:
         self.fresh["sw"].append(o)
         return o
 
+    def _existing_cuwps(self):
+        out = []
+        if b"UPRP" in self.chunks:
+            recs = refchk.fields_of(self.L[b"UPRP"], self.chunks[b"UPRP"])["records"]
+            bits = lambda n, k: [bool((n >> i) & 1) for i in range(k)]  # noqa: E731
+            for s in sorted(self.view["cuwps"]):
+                rec = recs[s - 1]
+                fl = bits(rec["_flags"], 6)
+                out.append(dict(k="cuwp", hp=rec["_hitpoints_percentage"], sp=rec["_shieldpoints_percentage"], ep=rec["_energypoints_percentage"], res=rec["_resource_amount"],
+                                hangar=rec["_units_in_hangar"], flags=fl[:5], unk=fl[5], vs=bits(rec["_valid_special_properties_flags"], 6), vu=bits(rec["_valid_unit_properties_flags"], 7),
+                                padding=rec["_padding"], idx=s))
+        return out
+
     def cuwp(self):
         rng = self.rng
         r = rng.random()
@@ -399,6 +412,21 @@ class Author:
             return rng.choice(self.fresh["cuwp"])
         if len(slots) + len(self.all_fresh["cuwp"]) >= 64 and not self.allow_exhaust:
             return self.cuwp() if slots else None
+        pool = list(self._existing_cuwps()) + self.all_fresh["cuwp"]
+        if pool and rng.random() < 0.35:
+            # a set that differs from an existing / earlier authored one in exactly one field
+            src = rng.choice(pool)
+            o = Obj(**{k: (list(v) if isinstance(v, list) else v) for k, v in src.items() if k != "uid"})
+            o["idx"] = None
+            f = rng.choice(["hp", "sp", "ep", "res", "hangar", "flags", "vs", "vu"])
+            if f in ("flags", "vs", "vu"):
+                j = rng.randrange(5)
+                o[f][j] = not o[f][j]
+            else:
+                o[f] = o[f] + 1 if o[f] < 100 else o[f] - 1
+            self.fresh["cuwp"].append(o)
+            self.all_fresh["cuwp"].append(o)
+            return o
         o = Obj(k="cuwp", hp=rng.randrange(0, 101), sp=rng.randrange(0, 101), ep=rng.randrange(0, 101), res=rng.choice([0, 1, 5000, 0xFFFFFFFF]), hangar=rng.choice([0, 1, 8, 0xFFFF]),
                 flags=[rng.random() < 0.4 for _ in range(5)], unk=False, vs=[rng.random() < 0.6 for _ in range(5)] + [False], vu=[rng.random() < 0.6 for _ in range(6)] + [False],
                 padding=0, idx=None)
@@ -605,6 +633,7 @@ def check_c04(sc, out_bytes, spec, rf, widths, out, base_info):
         if n == b"TRIG":
             raw_t += refchk.fields_of(refchk.layouts_of(spec)[b"TRIG"], p)["triggers"]
     raw_t = raw_t[-len(trigs):] if trigs else []
+    new_switch_slots = {}
     for ti, (t, g, rt) in enumerate(zip(trigs, got, raw_t)):
         if g["players"] != [i in t["players"] for i in range(27)]:
             out.violations.append(dict(base_info, oracle="authored trigger runs for exactly the authored players", key=None, trigger=ti, got=g["players"], authored=t["players"]))
@@ -624,10 +653,31 @@ def check_c04(sc, out_bytes, spec, rf, widths, out, base_info):
                 if k >= len(g[part]):
                     out.violations.append(dict(base_info, oracle="every authored entry is in the saved trigger", key=None, trigger=ti, part=part, entry=k, type=e["id"]))
                     break
+                gd = dict(g[part][k][1]) if g[part][k][0] == "rich" else {}
+                for a, v in e["args"]:
+                    if v["k"] == "sw" and v["idx"] is None and a in gd:
+                        try:
+                            new_switch_slots.setdefault(v["uid"], set()).add(eval(gd[a])[1])  # noqa: S307
+                        except Exception:  # noqa: BLE001
+                            pass
                 d = compare_entry(expected_entry(kind, e, spec, rf, widths), g[part][k])
                 if d:
                     out.violations.append(dict(base_info, oracle="the saved bytes hold the authored value in the field the format assigns to it, references resolving to the authored object",
                                                key=None, trigger=ti, part=part, entry=k, type=e["id"], diff=d))
+    # new switches: one slot each, distinct objects in distinct slots, never a slot the base map names
+    base_named = refchk.game_view(sc["base_out"], spec)["switches"]
+    if not any(ed["op"] == "reload" for ed in sc["history"]):
+        taken = {}
+        for uid, slots in new_switch_slots.items():
+            if len(slots) != 1:
+                out.violations.append(dict(base_info, oracle="every reference to one authored switch resolves to one slot", key=None, slots=sorted(slots)))
+                continue
+            sl = next(iter(slots))
+            if sl in base_named:
+                out.violations.append(dict(base_info, oracle="a new switch is not given a slot the map already names", key=None, slot=sl, base_name=base_named[sl]))
+            if sl in taken:
+                out.violations.append(dict(base_info, oracle="distinct authored switches get distinct slots", key=None, slot=sl))
+            taken[sl] = uid
     # unit settings
     L = refchk.layouts_of(spec)
     secs = dict((n, p) for n, p in reversed(sections_of(out_bytes)))
@@ -660,9 +710,10 @@ def check_c04(sc, out_bytes, spec, rf, widths, out, base_info):
     paths = [p for ed in sc["history"] if ed["op"] == "addwavs" for p in ed["paths"]]
     if paths and b"WAV " in secs:
         wv = [bytes.fromhex(t) if t and t != "?dangling" else None for t in view["wavs"].values()]
+        bw = [bytes.fromhex(t) if t and t != "?dangling" else None for t in refchk.game_view(sc["base_out"], spec)["wavs"].values()]
         for p in set(paths):
-            if wv.count(p) != 1:
-                out.violations.append(dict(base_info, oracle="each added WAV path is in the WAV table exactly once", key=None, path=repr(p), count=wv.count(p)))
+            if wv.count(p) != max(1, bw.count(p)):
+                out.violations.append(dict(base_info, oracle="each added WAV path is in the WAV table exactly once (a path the table already lists is not added again)", key=None, path=repr(p), count=wv.count(p), before=bw.count(p)))
 
 
 def check_c07(sc, base_out, out_bytes, spec, out, base_info):
@@ -751,6 +802,58 @@ def base_maps(rng, spec, tier):
         data, _ = gen.gen("editor" if i % 2 == 0 else "valid", [None, None, "mrgn64", "uprp-prefilled"][i % 4] if i % 2 == 0 else None)
         maps.append(("gen:%d" % i, data))
     return maps
+
+
+def special_histories(author, rng):
+    """targeted normal-looking histories: (what, history, mode, may_raise)"""
+    out = []
+    # many new named switches in one save
+    t = {"conds": [], "acts": [], "players": [0]}
+    for i in range(rng.choice([6, 12])):
+        e = author.entry("a", 13)
+        sw = Obj(k="sw", name=b"sw-%d-%d" % (i, rng.randrange(1000)), idx=None)
+        e["args"] = [(a, (sw if v["k"] == "sw" else v)) for a, v in e["args"]]
+        t["acts"].append(e)
+    out.append(("many new switches", [{"op": "addtrigs", "trigs": [t]}], "multi", False))
+    # unit-property sets that differ from one another (and from a stored one) in exactly one field
+    pool = author._existing_cuwps()
+    src = dict(rng.choice(pool)) if pool and len(pool) < 50 else dict(k="cuwp", hp=100, sp=100, ep=100, res=0, hangar=2, flags=[False] * 5, unk=False, vs=[True] * 5 + [False], vu=[True] * 6 + [False], padding=0, idx=None)
+    acts = []
+    for f in ["hp", "sp", "ep", "res", "hangar", "flags", "vs", "vu"]:
+        o = Obj(**{k: (list(v) if isinstance(v, list) else v) for k, v in src.items() if k != "uid"})
+        o["idx"] = None
+        if f in ("flags", "vs", "vu"):
+            o[f][rng.randrange(5)] ^= True
+        else:
+            o[f] = o[f] + 1 if o[f] < 100 else o[f] - 1
+        e = author.entry("a", 11)
+        e["args"] = [(a, (o if v["k"] == "cuwp" else v)) for a, v in e["args"]]
+        acts.append(e)
+    out.append(("unit-property sets differing in one field", [{"op": "addtrigs", "trigs": [{"conds": [], "acts": acts, "players": [2]}]}], "multi", len(pool) > 56))
+    # an object carrying the index of an OCCUPIED slot but other content: must not silently replace it
+    ex = author.existing_loc()
+    if ex is not None:
+        lo = Obj(**{k: v for k, v in ex.items() if k != "uid"})
+        lo["x1"] = (lo["x1"] + 32) % 8192
+        t = author.trigger(nc=1, na=3, raw_p=0)
+        n = 0
+        for e in t["conds"] + t["acts"]:
+            if e["k"] == "rich" and any(v["k"] == "loc" for _, v in e["args"]):
+                e["args"] = [(a, (lo if v["k"] == "loc" else v)) for a, v in e["args"]]
+                n += 1
+        if not n:
+            e = author.entry("a", 10)
+            e["args"] = [(a, (lo if v["k"] == "loc" else v)) for a, v in e["args"]]
+            t["acts"] = [e]
+        out.append(("location carrying an occupied index with other content", [{"op": "addtrigs", "trigs": [t]}], "single", True))
+    pool = author._existing_cuwps()
+    if pool:
+        cu = Obj(**{k: (list(v) if isinstance(v, list) else v) for k, v in rng.choice(pool).items()})
+        cu["hp"] = cu["hp"] + 1 if cu["hp"] < 100 else cu["hp"] - 1
+        e = author.entry("a", 11)
+        e["args"] = [(a, (cu if v["k"] == "cuwp" else v)) for a, v in e["args"]]
+        out.append(("unit-property set carrying an occupied index with other content", [{"op": "addtrigs", "trigs": [{"conds": [], "acts": [e], "players": [1]}]}], "single", True))
+    return out
 
 
 def scenario_line(sc):
@@ -844,6 +947,11 @@ def run(prop, tier, seed):
             mode = "single" if j % 3 != 2 else "multi"
             hist = gen_history(author, rng, mode, have)
             scenarios.append({"tag": tag, "base": data, "base_out": base_out, "history": hist, "mode": mode, "kind": "normal"})
+        if prop in ("C04", "C07", "C11"):
+            Author._existing = {}
+            author = Author(rng, spec, classes, data)
+            for what, hist, mode, may_raise in special_histories(author, rng):
+                scenarios.append({"tag": tag, "base": data, "base_out": base_out, "history": hist, "mode": mode, "kind": "special:" + what, "may_raise": may_raise})
         if prop == "C11" and (tier == "thorough" or nbase < 4):
             Author._existing = {}
             author = Author(rng, spec, classes, data)
@@ -871,13 +979,13 @@ def run(prop, tier, seed):
                 out.disagreements.append({"op": "edit", "tag": sc["tag"], "history": desc, "kind": sc["kind"], "model": ml[:100] + " ... " + ml[-40:], "real": rl[:100] + " ... " + rl[-40:],
                                           "first_diff": next((j for j in range(min(len(ml), len(rl))) if ml[j] != rl[j]), None)})
         if res is None:
-            if sc["kind"] == "normal":
+            if sc["kind"] == "normal" or (sc["kind"].startswith("special") and not sc.get("may_raise")):
                 out.violations.append(dict(base_info, oracle="in-range authored content on a decodable map saves", key=None, got=rl))
             continue
-        if prop == "C04" and sc["kind"] == "normal":
+        if prop == "C04" and not sc["kind"].startswith("degenerate"):
             check_c04(sc, res, spec, rf, widths, out, base_info)
             reload_equal(sc, res, authored, out, base_info)
-        if prop == "C07" and sc["kind"] == "normal":
+        if prop == "C07" and not sc["kind"].startswith("degenerate"):
             check_c07(sc, sc["base_out"], res, spec, out, base_info)
         if prop == "C11":
             before = set(refchk.struct_valid(sc["base_out"], spec))
